@@ -173,7 +173,8 @@ def run_property(pid, tier, seed):
         for f in r.failed:
             f['property'] = pid
             ps, pc = f.get('props_site'), f.get('props_clause')
-            if (ps and pid not in ps) or (pc and pid not in pc):
+            sites = spec.get('sites', {}).get(unit)
+            if (ps and pid not in ps) or (pc and pid not in pc) or (sites is not None and f.get('function') not in sites):
                 foreign.append(f)       # the obligation serves another property (tagged in the template)
             else:
                 failed.append(f)
